@@ -36,11 +36,32 @@ extern "C" int ascon_trng_generate(unsigned char *out, size_t outlen) {
     for (size_t i = 0; i < outlen; ++i) out[i] = (unsigned char)(next_word() >> 11);
     return 1;
 }
+#ifndef VERIF_REAL_MIXER      /* -DVERIF_REAL_MIXER: only the system source is scripted, the library's own mixer (ascon-trng-mixer.c) is linked */
 extern "C" int ascon_trng_init(ascon_trng_state_t *state) { memset(state, 0, sizeof(*state)); return 1; }
 extern "C" void ascon_trng_free(ascon_trng_state_t *state) { (void)state; }
 extern "C" uint32_t ascon_trng_generate_32(ascon_trng_state_t *state) { (void)state; return (uint32_t)next_word(); }
 extern "C" uint64_t ascon_trng_generate_64(ascon_trng_state_t *state) { (void)state; return next_word(); }
 extern "C" int ascon_trng_reseed(ascon_trng_state_t *state) { (void)state; return 1; }
+#endif
+
+// MIX <k>: the library's mixer on top of the scripted system source (meaningful in a -DVERIF_REAL_MIXER build):
+//   init (one system request), k 64-bit words, 3 32-bit words, reseed (one system request), k more words.
+//   Result: "<init status> <reseed status> <system requests> <words after init as hex> <words after reseed as hex>"
+static std::string op_mix(const Toks &t) {
+    int k = atoi(t[1].c_str());
+    unsigned long before = g_trng_sys_calls;
+    ascon_trng_state_t st;
+    int ok1 = ascon_trng_init(&st);
+    std::string w1, w2;
+    char buf[32];
+    for (int i = 0; i < k; ++i) { snprintf(buf, sizeof(buf), "%016llx", (unsigned long long)ascon_trng_generate_64(&st)); w1 += buf; }
+    for (int i = 0; i < 3; ++i) { snprintf(buf, sizeof(buf), "%08x", (unsigned)ascon_trng_generate_32(&st)); w1 += buf; }
+    int ok2 = ascon_trng_reseed(&st);
+    for (int i = 0; i < k; ++i) { snprintf(buf, sizeof(buf), "%016llx", (unsigned long long)ascon_trng_generate_64(&st)); w2 += buf; }
+    ascon_trng_free(&st);
+    return std::to_string(ok1 ? 1 : 0) + " " + std::to_string(ok2 ? 1 : 0) + " " + std::to_string(g_trng_sys_calls - before) + " " + w1 + " " + w2;
+}
+static Reg r_mix("MIX", op_mix);
 
 void hx_trng_script(const std::vector<uint64_t> &words) {
     g_mode = "zero"; g_ctr = 0; g_list.clear();
